@@ -12,10 +12,15 @@
 //!   dump                                              local store content
 //!   evict <key>                                       the store drops that key (capacity eviction, range clean-up, removal of a failed write)
 //!   big <path> <kind> <delta>                         a well-formed record whose value is MAX_PACKET_SIZE+delta bytes long (big.rs)
+//!   bigm <path> <delta>                               the node holds a transaction set, a second transaction arrives (c: TransactionWithPayment with an
+//!                                                     expired quote, tolerated as an update; r: replicated vector); each record is small, their UNION
+//!                                                     re-serialised is MAX_PACKET_SIZE+delta bytes long (big.rs)
 //!   sput <max> <len> <hdr> <existing>                 direct `RecordStore::put` (see sput.rs)
 //!   tamper <store> <path> <kind> <rk> <contentA> <pay> <contentB> <node> <variant>   structure-aware wire tampering (wire.rs)
 //!   close <r> <peers by distance>                     real `SwarmDriver` close set + upload paying the rank-r peer (closepeers.rs)
-//! path c|r; kind chunkp chunk padp pad txp tx regp reg; content C<id> | S<owner>.<n>.<v|w|n> |
+//! Key number n = SHA3-256 of address preimage n (3i plain data i, 3o+1 the public-key bytes of owner o, 3r+2
+//! meta ‖ pk of register r): addresses carry no kind tag, so the chunk `Ck<n>` whose BYTES are preimage n has key n.
+//! path c|r; kind chunkp chunk padp pad txp tx regp reg; content C<id> | Ck<key> | S<owner>.<n>.<v|w|n> |
 //! T<owner>.<t>.<v|i>[,...] | T- | R<id>.<g|a|b>.<ops|-> (op = <id><v|u|f|s|z>: valid / unpermitted writer /
 //! other register's address / forged signature / oversize entry) | X (undecodable);
 //! (scratchpad signature classes: v valid, d valid over other data, w wrong signer, n none; payee x / y = claimed
@@ -51,6 +56,76 @@ pub struct Ctx {
     pub history: Vec<String>,
     /// validations that overlapped another validation of the same key in this history
     pub overlapped: bool,
+    /// per key: the highest validly signed scratchpad counter the store has shown in this history
+    pub best_pad: std::collections::BTreeMap<u64, u64>,
+    /// per key: every transaction / register-op id the store has shown in this history
+    pub seen_ids: std::collections::BTreeMap<u64, std::collections::BTreeSet<String>>,
+    /// keys the store dropped (`evict`) in this history
+    pub removed: std::collections::BTreeSet<u64>,
+}
+
+impl Ctx {
+    /// start of a history: what the store holds has been "shown"
+    fn reset_history(&mut self, line: &str) {
+        self.history = vec![line.to_string()];
+        self.overlapped = false;
+        self.best_pad.clear();
+        self.seen_ids.clear();
+        self.removed.clear();
+        let recs: Vec<libp2p::kad::Record> = self.world.store.values().cloned().collect();
+        for r in recs {
+            self.note_shown(&r.key.clone(), &r);
+        }
+    }
+    fn note_shown(&mut self, key: &libp2p::kad::RecordKey, rec: &libp2p::kad::Record) {
+        let Some(kn) = key_number(key) else { return };
+        let desc = describe(key, rec);
+        if let Some((n, true)) = pad_counter(&desc) {
+            let e = self.best_pad.entry(kn).or_insert(n);
+            *e = (*e).max(n);
+        }
+        if desc.starts_with(['T', 'R', 'A']) && !desc.contains('!') {
+            self.seen_ids.entry(kn).or_default().extend(id_set(&desc));
+        }
+    }
+}
+
+/// C07 over the whole history (model-independent): "its counter never decreases … the stored version is the highest
+/// validly signed version delivered", "only ever grows".  Judged when no validations overlapped; a regress / loss at a
+/// key the store DROPPED earlier in the history is the known finding K-f6 (the node has no memory of a dropped key)
+/// and is counted, not judged.
+fn history_oracle(ctx: &Ctx, out: &mut Out) {
+    if ctx.overlapped {
+        return;
+    }
+    let hist = ctx.history.join(" ; ");
+    for (kn, best) in &ctx.best_pad {
+        let key = record_key(*kn);
+        let Some(now) = ctx.world.store.get(&key.to_vec()).map(|r| describe(&key, r)) else { continue };
+        if let Some((c, _)) = pad_counter(&now) {
+            if c < *best {
+                if ctx.removed.contains(kn) {
+                    out.count("known:K-f6-removal-forgets-version");
+                } else {
+                    out.oracle_fail("C07:history-never-regresses", &hist, &format!("key {kn} showed scratchpad counter {best} and now holds {now}"));
+                }
+            }
+        }
+    }
+    for (kn, seen) in &ctx.seen_ids {
+        let key = record_key(*kn);
+        let Some(now) = ctx.world.store.get(&key.to_vec()).map(|r| describe(&key, r)) else { continue };
+        if now.starts_with(['T', 'R', 'A']) {
+            let ids = id_set(&now);
+            if seen.iter().any(|i| !ids.contains(i)) {
+                if ctx.removed.contains(kn) {
+                    out.count("known:K-f6-removal-forgets-version");
+                } else {
+                    out.oracle_fail("C07:history-sets-only-grow", &hist, &format!("key {kn} showed entries {seen:?} and now holds {now}"));
+                }
+            }
+        }
+    }
 }
 
 fn fmt_out(res: &str, toks: &[String]) -> String {
@@ -209,6 +284,12 @@ fn oracle_after(ctx: &Ctx, d: &Delivery, res: &str, before: &Store, out: &mut Ou
         let held_fam = describe(&key, held).chars().next().map(fam).unwrap_or(0);
         let new_fam = match &d.content { DContent::Pad { .. } => 1, DContent::Txs(_) => 2, DContent::Reg { .. } => 3, _ => 0 };
         if held_fam != new_fam {
+            // known finding K-f5: addresses carry no kind tag.  A Chunk whose bytes are the owner's public key
+            // (or a register's meta ‖ pk) holds the owner-derived key and every scratchpad / transaction / register
+            // delivered for it is refused; likewise the other owner-keyed kind of the same owner.  Counted, not judged.
+            if new_fam != 0 && derived_key(&d.content) == Some(d.rk) {
+                out.count(if held_fam == 0 { "known:K-f5-cross-kind-key-squat:chunk" } else { "known:K-f5-cross-kind-key-squat:pad-tx" });
+            }
             return;
         }
     }
@@ -315,6 +396,16 @@ fn finish_inflight(ctx: &mut Ctx, id: &str, before: &Store, sequential: bool, ou
             if sequential {
                 oracle_after(ctx, &inf.d, &res, before, out);
             }
+            for (key, rec, _) in &inf.puts {
+                ctx.note_shown(key, rec);
+                if key_number(key).map(|k| k % 3 != 0).unwrap_or(false) && describe(key, rec).starts_with('C') {
+                    // a Chunk stored under an owner- / register-derived key (its bytes ARE that address preimage)
+                    out.count("known:K-f5-cross-kind-key-squat:stored");
+                }
+            }
+            if sequential {
+                history_oracle(ctx, out);
+            }
             out.count(&format!("result:{res}"));
             fmt_out(&res, &toks)
         }
@@ -327,9 +418,8 @@ pub fn exec_line(ctx: &mut Ctx, line: &str, out: &mut Out) -> String {
     match ws.first().copied() {
         Some("case") if ws.len() == 7 => {
             let (Some(store), Some(d)) = (parse_store(ws[1]), parse_delivery(&ws[2..])) else { return "bad-op".into() };
-            ctx.history = vec![line.to_string()];
-            ctx.overlapped = false;
             ctx.world.reset(store.clone());
+            ctx.reset_history(line);
             out.count(&format!("case:{}:{}", ws[2], ws[3]));
             ctx.world.begin("x", d);
             run_to_end(ctx, "x");
@@ -337,9 +427,8 @@ pub fn exec_line(ctx: &mut Ctx, line: &str, out: &mut Out) -> String {
         }
         Some("new") if ws.len() == 2 => {
             let Some(store) = parse_store(ws[1]) else { return "bad-op".into() };
-            ctx.history = vec![line.to_string()];
-            ctx.overlapped = false;
             ctx.world.reset(store);
+            ctx.reset_history(line);
             "ok".into()
         }
         Some("deliver") if ws.len() == 6 => {
@@ -387,6 +476,9 @@ pub fn exec_line(ctx: &mut Ctx, line: &str, out: &mut Out) -> String {
         }
         Some("dump") => {
             ctx.history.push(line.to_string());
+            if ctx.world.inflight.is_empty() {
+                history_oracle(ctx, out);
+            }
             format!("store {}", dump_store(&ctx.world.store))
         }
         Some("evict") if ws.len() == 2 => {
@@ -397,6 +489,7 @@ pub fn exec_line(ctx: &mut Ctx, line: &str, out: &mut Out) -> String {
             if !ctx.world.inflight.is_empty() {
                 ctx.overlapped = true;
             }
+            ctx.removed.insert(k);
             match ctx.world.store.remove(&record_key(k).to_vec()) {
                 Some(_) => "evicted".into(),
                 None => "absent".into(),
@@ -453,6 +546,44 @@ pub fn exec_line(ctx: &mut Ctx, line: &str, out: &mut Out) -> String {
             out.count(&format!("big-result:{res}"));
             format!("{res} puts={}", inf.puts.len())
         }
+        Some("bigm") if ws.len() == 3 => {
+            let bad = "0.0.1.e.1.1.5,1.1.1.f.1.1.2,2.2.1.f.1.1.3;0.1.2";
+            let (kind, bk, pay) = match ws[1] {
+                "c" => ("txp", "txmp", bad),
+                "r" => ("tx", "txm", "-"),
+                _ => return "bad-op".into(),
+            };
+            let (Some(mut d), Ok(delta)) = (parse_delivery(&[ws[1], kind, "1", "T0.1.v", pay]), ws[2].parse::<i64>()) else { return "bad-op".into() };
+            let target = (big::LIMIT as i64 + delta).max(0) as usize;
+            let Some(held) = big::merge_held(target) else { return "bad-op".into() };
+            d.big = Some(delta);
+            d.big_kind = bk.to_string();
+            let mut store = Store::new();
+            let held_len = held.value.len();
+            store.insert(held.key.to_vec(), held);
+            ctx.world.reset(store);
+            ctx.reset_history(line);
+            out.count(&format!("bigm:{}:{}", ws[1], if delta < 0 { "below" } else { "at-or-above" }));
+            ctx.world.begin("x", d);
+            run_to_end(ctx, "x");
+            let inf = ctx.world.inflight.remove("x").expect("inflight");
+            let res = inf.done.clone().unwrap_or_else(|| "pend".into());
+            // oracle (C04): whatever the node PUTS is below MAX_PACKET_SIZE — no peer accepts a larger record by
+            // replication and kad cannot carry it; both parts were below the limit on their own
+            for (_, rec, _) in &inf.puts {
+                if rec.value.len() >= big::LIMIT {
+                    out.oracle_fail("C04:stored-record-never-oversized", line, &format!("held {held_len} bytes + delivered: the node put a merged record of {} bytes (MAX_PACKET_SIZE = {})", rec.value.len(), big::LIMIT));
+                }
+            }
+            if delta < 0 && (res != "ok" || inf.puts.len() != 1) {
+                out.oracle_fail("C07:union-of-valid-delivered", line, &format!("a valid transaction whose union with the held set is below the limit was not stored (result {res})"));
+            }
+            if res == "panic" || res == "timeout" {
+                out.oracle_fail("no-panic", line, &format!("validation ended with {res}"));
+            }
+            out.count(&format!("bigm-result:{res}"));
+            format!("{res} puts={}", inf.puts.len())
+        }
         Some("close") if ws.len() == 3 => {
             ctx.history = vec![line.to_string()];
             ctx.overlapped = false;
@@ -486,7 +617,7 @@ fn main() {
     let mode = args.extra.get("mode").cloned().unwrap_or_else(|| "c03".into());
     let mut out = Out::new(&args.out);
     let stub = stub::start();
-    let mut ctx = Ctx { world: World::new(stub.clone()), history: vec![], overlapped: false };
+    let mut ctx = Ctx { world: World::new(stub.clone()), history: vec![], overlapped: false, best_pad: Default::default(), seen_ids: Default::default(), removed: Default::default() };
     let mut replay: std::collections::VecDeque<String> = args.replay.as_ref().map(common::read_lines).unwrap_or_default().into();
     let mut g = gen::Gen::new(&mode, args.n, Rng::new(args.seed));
     loop {
@@ -499,6 +630,7 @@ fn main() {
         let Some(line) = line else { break };
         let o = exec_line(&mut ctx, &line, &mut out);
         if line.starts_with("case") || line.starts_with("deliver") || line.starts_with("sput") || line.starts_with("begin") || line.starts_with("close") || line.starts_with("tamper") || line.starts_with("big") {
+            // (`bigm` lines start with "big" too)
             out.nontrivial_case(&line);
         }
         out.line(line.clone(), o);
